@@ -376,6 +376,74 @@ func cmdProp(args []string) {
 		}
 		fmt.Printf("VIOLATION property=%s replay=%s obligation=%s tags=%s status=undecided reason=%q no-failing-input-found\n", id, path, name, tg, r.Reason)
 	}
+	// ---- thorough tier: concrete cross-check of proved contracts on the real code ----
+	// For a sample of the verified functions whose parameter types can be built concretely, boundary / random inputs
+	// (field elements for ring layers) are run through the real code (in-package test through an overlay) and every
+	// clause of the contract is evaluated on the outputs. A clause that is proved but false on a real run would mean
+	// that the verifier's model of the code is wrong: it is reported as a violation with the failing input.
+	var cross map[string]interface{}
+	if *tier == "thorough" {
+		type cand struct {
+			o *Obligation
+			f string
+		}
+		var cands []cand
+		seen := map[string]bool{}
+		for _, r := range results {
+			if r.Status != "verified" {
+				continue
+			}
+			for _, o := range r.Obls {
+				if o.Ctx == nil || o.MustFail {
+					continue
+				}
+				key := r.Func + "@" + o.Ctx.Part.label + "[" + r.Tags + "]"
+				if seen[key] {
+					continue
+				}
+				seen[key] = true
+				// only functions whose inputs can be built concretely and whose layer has a concrete interpretation
+				if o.Ctx.C.Layer != "" && o.Ctx.V.ringLayerField(o.Ctx.Pkg, o.Ctx.C) == nil {
+					continue
+				}
+				if newReplayPlan(o.Ctx) == nil {
+					continue
+				}
+				cands = append(cands, cand{o, key})
+			}
+		}
+		sort.Slice(cands, func(i, j int) bool { return cands[i].f < cands[j].f })
+		max := 48
+		stride := 1
+		if len(cands) > max {
+			stride = len(cands) / max
+		}
+		tried, inputs, unsupported := 0, 0, 0
+		var disagreements []string
+		deadline := time.Now().Add(12 * time.Minute)
+		for i := int(seed) % stride; i < len(cands) && time.Now().Before(deadline); i += stride {
+			c := cands[i]
+			probe := &Obligation{Name: c.o.Name[:strings.Index(c.o.Name, "#")] + "#concrete-cross-check@" + c.o.Ctx.Part.label, Kind: "cross-check", Ctx: c.o.Ctx, Spec: "every clause of the contract holds on concrete runs of the real code"}
+			sc, _ := os.MkdirTemp("", "gcv-cross-")
+			rr := replayModel(*repo, probe, sc, id)
+			os.RemoveAll(sc)
+			if rr == nil || rr.Tried == 0 {
+				unsupported++
+				continue
+			}
+			tried++
+			inputs += rr.Tried
+			if rr.Confirmed {
+				violations++
+				probe.Result = &SolverResult{Status: "concrete-counterexample", Solver: "go test"}
+				rp := writeReplayWith(replayDir, id, probe, *repo, rr)
+				disagreements = append(disagreements, c.f)
+				fmt.Printf("VIOLATION property=%s replay=%s obligation=%s tags=%s status=concrete-counterexample clauses=%v\n", id, rp, probe.Name, c.o.Ctx.Tags, rr.Violated)
+			}
+		}
+		cross = map[string]interface{}{"functions_checked": tried, "functions_not_replayable": unsupported, "inputs_run_on_real_code": inputs, "candidates": len(cands), "disagreements": disagreements,
+			"what": "sampled verified functions: boundary/random inputs run through the real code, every contract clause evaluated on the outputs"}
+	}
 	var bounded []BoundedResult
 	if plan.Bounded != nil {
 		bounded = plan.Bounded(*tier, seed)
@@ -419,6 +487,7 @@ func cmdProp(args []string) {
 			"source_sha256":            srcHash,
 			"explanation":              plan.Note,
 			"ring_interpretations_used": sortedKeys(usedRing),
+			"concrete_cross_check":      cross,
 		},
 		"assumptions": as,
 		"wall_s":      round3(time.Since(t0).Seconds()),
@@ -598,4 +667,28 @@ func cmdReplay(args []string) {
 	cmd.Env = append(os.Environ(), "GOFLAGS=-mod=mod", "GOPROXY=off", "GOSUMDB=off", "GOTOOLCHAIN=local")
 	out, _ := cmd.CombinedOutput()
 	fmt.Printf("  re-run on the current tree:\n%s\n", out)
+}
+
+// writeReplayWith records a concrete counterexample found by the cross-check (no solver involved).
+func writeReplayWith(dir, id string, o *Obligation, repo string, rr *replayResult) string {
+	tgs := ""
+	if o.Ctx != nil {
+		tgs = o.Ctx.Tags
+	}
+	hs := sha256.Sum256([]byte(o.Name + "|" + tgs))
+	path := filepath.Join(dir, id+"-"+sanitize(o.Name)+"-"+hex.EncodeToString(hs[:3])+".json")
+	out := map[string]interface{}{
+		"property": id, "obligation": o.Name, "kind": o.Kind, "spec": o.Spec, "status": "concrete-counterexample", "solver": "none (real execution)",
+		"note":   "a clause of a proved contract is false on a concrete run of the real code: the code or the verifier's model of it is wrong",
+		"replay": rr,
+	}
+	if o.Ctx != nil {
+		out["package"] = o.Ctx.Pkg.Pkg.Path()
+		out["tags"] = o.Ctx.Tags
+		out["function"] = o.Ctx.C.Func
+		out["alias_partition"] = o.Ctx.Part.label
+	}
+	b, _ := json.MarshalIndent(out, "", " ")
+	os.WriteFile(path, b, 0o644)
+	return path
 }
